@@ -243,7 +243,12 @@ def probe_linear(eqn, ins, data_pos, ctx):
             out = bind(eqn, *args)
             return list(out) if eqn.primitive.multiple_results else [out]
 
-        M = jax.vmap(f)(jnp.eye(N, dtype=jnp.float64))
+        eye = jnp.eye(N, dtype=jnp.float64)
+        try:
+            M = jax.vmap(f)(eye)
+        except NotImplementedError:  # primitive without a batching rule: one call per basis vector
+            cols = [f(eye[i]) for i in range(N)]
+            M = [jnp.stack([c[k] for c in cols]) for k in range(len(cols[0]))]
         z = f(jnp.zeros(N, dtype=jnp.float64))
         hit = []
         for Mo, zo in zip(M, z):
@@ -285,7 +290,11 @@ def probe_bilinear(eqn, ins, pos, ctx):
             out = bind(eqn, *[jnp.asarray(x) for x in args])
             return out[0] if eqn.primitive.multiple_results else out
 
-        T = jax.vmap(jax.vmap(f, (None, 0)), (0, None))(jnp.eye(na), jnp.eye(nb))
+        try:
+            T = jax.vmap(jax.vmap(f, (None, 0)), (0, None))(jnp.eye(na), jnp.eye(nb))
+        except NotImplementedError:
+            ea_, eb_ = jnp.eye(na), jnp.eye(nb)
+            T = jnp.stack([jnp.stack([f(ea_[i], eb_[k]) for k in range(nb)]) for i in range(na)])
         T = np.asarray(T)
         if np.iscomplexobj(T):
             if np.any(T.imag != 0):
